@@ -42,7 +42,7 @@ PROPS = {
         "level": "proof",
         "lean_targets": ["LP.Props.C15", "LP.Props.C15V"],
         "harnesses": [{"name": "h_interval", "quick": 60000, "thorough": 1000000}],
-        "select": lambda t: t[1] in ("qi", "di", "vi"),
+        "select": lambda t: t[1] in ("qi", "di", "vi", "vil"),
         "nontrivial": lambda t, r: True,
         "rule": "exhaustive: all 45 intervals with end points in {-2..2} (points and every open/closed pattern), all 2025 ordered pairs "
                 "x {add,sub,mul}, neg, pow 0..4, sgn, for rational and dyadic intervals; then random intervals (small-pool end points so that "
@@ -146,7 +146,7 @@ PROPS = {
                       {"name": "h_div", "quick": 4000, "thorough": 40000},
                       {"name": "h_gcd", "quick": 2500, "thorough": 30000},
                       {"name": "h_res", "quick": 1200, "thorough": 15000}],
-        "select": lambda t: t[1] in ("refs", "div", "gcd", "res") or _dest_of(t) in ("p", "a", "b", "c", "s"),
+        "select": lambda t: t[1] in ("refs", "div", "gcd", "res", "vil") or _dest_of(t) in ("p", "a", "b", "c", "s"),
         "nontrivial": lambda t, r: True,
         "viol_filter": _c19_viol_filter,
         "rule": "(1) reference-count histories (create/attach/detach/destroy of rings and contexts, external polynomials, vectors, "
